@@ -3,6 +3,7 @@ package main
 import (
 	"bufio"
 	"fmt"
+	"math"
 	"os"
 	"path/filepath"
 
@@ -52,6 +53,9 @@ func runFile(path string) {
 
 func runPrompt() {
 	scanner := bufio.NewScanner(os.Stdin)
+	// a line may have any length: with the default limit of 64 KiB per line a
+	// longer line ended the session silently
+	scanner.Buffer(nil, math.MaxInt)
 	for {
 		fmt.Printf(">> ")
 		scanned := scanner.Scan()
